@@ -418,7 +418,7 @@ func (w *World) model() *Node { return w.models[len(w.models)-1] }
 
 // instantiate fills the per-batch unique values into a batch shape.
 func instantiate(spec *BatchSpec, n int) *BatchSpec {
-	out := &BatchSpec{UseAlloc: spec.UseAlloc, DelKids: spec.DelKids}
+	out := &BatchSpec{UseAlloc: spec.UseAlloc, AllocStyle: spec.AllocStyle, DelKids: spec.DelKids}
 	for _, o := range spec.Ops {
 		if o.Val == "$" {
 			if o.Kind == 'M' {
